@@ -44,9 +44,10 @@ fn main() {
             if args.len() < 3 { usage(); }
             std::process::exit(checks::replay(&args[2]));
         }
+        "genhash" => { checks::c15::genhash_main(&args[2]); }
         "derive" => {
             // derive <grammar_id> <token indices...>: show the reference derivations (debugging aid)
-            let all: Vec<families::FamGrammar> = families::g1().into_iter().chain(families::g2()).chain(families::g3()).collect();
+            let all: Vec<families::FamGrammar> = families::g1().into_iter().chain(families::g2()).chain(families::g3()).chain(families::g4()).collect();
             let f = all.iter().find(|f| f.id == args[2]).expect("grammar id");
             let ix: Vec<usize> = args[3..].iter().map(|a| a.parse().unwrap()).collect();
             let (text, toks) = checks::c03::text_of(f, &ix, " ");
